@@ -475,10 +475,15 @@ class Machine:
         return mkbv(e, t.w)
 
     def memcpy(s, d, sp, n):
-        if isBV(n): raise Unsupported('memcpy with symbolic length')
+        n = s.concretize(n)
         if n == 0: return
+        if isBV(sp.o) or isBV(d.o):
+            # symbolic offsets: element-wise through the ITE load/store path (8-byte granules: arrays of double / complex)
+            if n % 8: raise Unsupported('memcpy at symbolic offset with length not a multiple of 8')
+            vals = [s.load(IT(64), s.padd(sp, i)) for i in range(0, n, 8)]
+            for k, v in enumerate(vals): s.store(IT(64), v, s.padd(d, 8 * k))
+            return
         sb = s.chk(sp, n); db = s.chk(d, n, True)
-        if isBV(sp.o) or isBV(d.o): raise Unsupported('memcpy at symbolic offset')
         if s.trace_stores: s.stores.append((d.b, d.o, n))
         if s.trace_loads: s.loads.append((sp.b, sp.o, n))
         if db.kind == 'const': s.ub_now('write-to-const', f'memcpy to constant global {db.tag}')
@@ -492,8 +497,13 @@ class Machine:
         db.data[d.o:d.o + n] = raw
         for k, c in cells: db.cells[d.o + k] = c
 
+    def padd(s, p, k):
+        if isBV(p.o): return Ptr(p.b, mkbv(p.o.e + k, 64))
+        return Ptr(p.b, p.o + k)
+
     def memset(s, d, val, n):
-        if isBV(n) or isBV(val): raise Unsupported('memset symbolic')
+        n = s.concretize(n)
+        if isBV(val): raise Unsupported('memset symbolic value')
         if n == 0: return
         b = s.chk(d, n, True)
         if s.trace_stores: s.stores.append((d.b, d.o, n))
@@ -604,6 +614,22 @@ class Machine:
         s.sol.pop(); s.nqueries += 1; s.tsolve += time.time() - t0
         return r, model
 
+    def concretize(s, x):
+        """symbolic int that must be concrete to go on (allocation size, memcpy length): fork over its feasible values; the chosen value is
+        stored in the decision prefix so that re-execution is deterministic."""
+        if not isBV(x): return x
+        while True:
+            i = len(s.taken)
+            if i < len(s.preset):
+                _, v, d = s.preset[i]
+            else:
+                s.sol.set('timeout', 30000)
+                if s.sol.check() != z3.sat: raise Infeasible('concretize: path condition not satisfiable')
+                v = s.sol.model().eval(x.e, model_completion=True).as_long(); d = True
+                if s.feasible(x.e != v): s.pending.append(s.taken + [('v', v, False)])
+            s.taken.append(('v', v, d)); s.assume(x.e == v if d else x.e != v)
+            if d: return v
+
     def choose(s, e):
         i = len(s.taken)
         if i < len(s.preset):
@@ -682,7 +708,7 @@ class Machine:
                     else: R[ins.dst] = x if c else y
                 elif op == 'alloca':
                     n = 1 if a[1] is None else const(a[1][0], a[1][1], R)
-                    if isBV(n): raise Unsupported('alloca symbolic count')
+                    if isBV(n): s.cur = fr; n = s.concretize(n)
                     b = s.new_block(sizeof(a[0]) * n, 'stack', fr.f.name); fr.allocas.append(b); R[ins.dst] = Ptr(b, 0)
                 elif op == 'call':
                     callee = const(None, a[1], R)
@@ -878,7 +904,7 @@ class Machine:
 
 # ---------------------------------------------------------------- externals
 def _new(m, n, *a):
-    if isBV(n): raise Unsupported("symbolic allocation size")
+    n = m.concretize(n)
     if n > (1 << 40): raise Throw('bad_alloc')
     return Ptr(m.new_block(n, 'heap', m.cur.f.name if m.cur else None), 0)
 def _del(m, p, *a):
@@ -889,8 +915,8 @@ def _del(m, p, *a):
     b.alive = False
 def _memcpy(m, d, s, n, *a): m.memcpy(d, s, n)
 def _memmove(m, d, s, n, *a):
+    n = m.concretize(n)
     if n == 0: return
-    if isBV(n): raise Unsupported('memmove symbolic length')
     tmp = Ptr(m.new_block(n, 'tmp'), 0)
     ts, tl = m.trace_stores, m.trace_loads; m.trace_stores = False
     m.memcpy(tmp, s, n); m.trace_stores = ts; m.trace_loads = False
